@@ -170,6 +170,24 @@ class MoveAlgebra(common.Suite):
         # leaf id i has kind KINDS[i % 4]; ids >= 4 are second objects of the same kinds; G alternates user/Hamiltonian
         self.kinds = "".join(KINDS[i % 4] for i in range(8))
         self.objs = [mk["H" if (i == 7) else self.kinds[i]]() for i in range(8)]
+        # the second object of each kind is configured away from every constructor default: the kind of a composite is a
+        # matter of the operands' classes, never of their settings
+        from quansino.operations.displacement import Box
+
+        for i, o in enumerate(self.objs):
+            if i < 4:
+                continue
+            k = self.kinds[i]
+            if k == "X":
+                self.objs[i] = ExchangeMove(np.array([0, 0, 1, -1]), operation=Box(0.3), bias_towards_insert=0.8,
+                                            apply_constraints=False)
+                self.objs[i].default_label = 7
+            elif k == "D":
+                self.objs[i] = DisplacementMove(np.array([2, 2, -1, 5]), operation=Box(0.2), apply_constraints=False)
+                self.objs[i].default_label = 0
+            elif k == "C":
+                self.objs[i] = CellMove(scale_atoms=False, apply_constraints=False)
+            self.objs[i].max_attempts = 3
 
     def cases(self, rng, tier):
         for e in gen_trees(rng, tier, 4):
